@@ -391,11 +391,72 @@ func TestVerifC13(t *testing.T) {
 			}
 		}
 	})
+	// (3b) numeric dictionaries: number tokens sort as strings in the dictionary but a numeric range selects by
+	// value, so a range whose ends share leading characters ([5, 50], [1, 19], [100, 1000]) selects tokens all over
+	// the dictionary; (3c) tokens longer than the default token size limit (a raised limit is configuration) with a
+	// long common prefix. Every sub-dictionary x every split into blocks, as above.
+	allSplits := func(d []string, f func(split []int)) {
+		n := len(d)
+		for mask := 0; mask < 1<<(n-1); mask++ {
+			var split []int
+			run := 1
+			for b := 0; b < n-1; b++ {
+				if mask&(1<<b) != 0 {
+					split = append(split, run)
+					run = 1
+				} else {
+					run++
+				}
+			}
+			f(append(split, run))
+		}
+	}
+	subsets := func(base []string, max int) [][]string {
+		var res [][]string
+		var rec2 func(start int, cur []string)
+		rec2 = func(start int, cur []string) {
+			if len(cur) > 0 {
+				res = append(res, append([]string{}, cur...))
+			}
+			if len(cur) == max {
+				return
+			}
+			for i := start; i < len(base); i++ {
+				rec2(i+1, append(cur, base[i]))
+			}
+		}
+		rec2(0, nil)
+		return res
+	}
+	nbase := []string{"1", "10", "100", "19", "2", "20", "49", "5", "50", "9", "x"}
+	sort.Strings(nbase)
+	nqueries := []string{"f:[5, 50]", "f:[1, 19]", "f:[100, 1000]", "f:(10, 19)", "f:[2, 20]", "f:[*, 19]", "f:[49, *]", `f:"1*"`, `f:"5*"`}
+	ndicts := subsets(nbase, dictMax)
+	vlib.Parallel(len(ndicts), 0, func(i int) {
+		allSplits(ndicts[i], func(split []int) {
+			r.Add("layouts", 1)
+			for _, q := range nqueries {
+				judge(r, c13Case{Kind: "layout", Query: q, Tokens: ndicts[i], Ordered: true, Split: split})
+			}
+		})
+	})
+	long := strings.Repeat("x", 71)
+	lbase := []string{long, long + "a", long + "ab", long + "b", long + "ba", long[:70], "y"}
+	sort.Strings(lbase)
+	lqueries := []string{quoteFilter(long + "a"), quoteFilter(long + "a*"), quoteFilter(long + "*"), quoteFilter(long + "b*a"), quoteFilter(long[:70] + "*"), quoteFilter(long + "ab"), quoteFilter("*" + "a"), quoteFilter(long), quoteFilter(long + "*b")}
+	for _, d := range subsets(lbase, 5) {
+		allSplits(d, func(split []int) {
+			r.Add("layouts", 1)
+			for _, q := range lqueries {
+				judge(r, c13Case{Kind: "layout", Query: q, Tokens: d, Ordered: true, Split: split})
+			}
+		})
+	}
 	c13Pairs(r, nil)
 	r.Sample(c13Case{Kind: "layout", Query: `f:"ab*"`, Tokens: []string{"a", "ab", "aba", "b"}, Ordered: true, Split: []int{1, 2, 1}})
 	ev := r.Get("evaluations")
 	r.Finish(t, "model_checking",
-		fmt.Sprintf("all patterns over {a,b,*} len<=%d x all tokens over {a,b} len<=%d (quoted and bare query forms, ordered and unordered provider); the same over {a, byte 0xff} len<=3 with case-sensitive parsing; all ranges over %d ends x 4 bracket forms; all sorted dictionaries of <=%d tokens from the 15 tokens of len<=3 x every split into consecutive blocks x all patterns len<=%d; on a real active and sealed fraction every ordered pair of 2x wildcard patterns (len<=3) and 4 numeric ranges resolved in ONE search (p1 OR p2, p1 AND NOT p2) vs the reference. non-trivial = the case matches some but not all tokens", patLen, tokLen, len(ends), dictMax, layoutPatLen),
+		fmt.Sprintf("all patterns over {a,b,*} len<=%d x all tokens over {a,b} len<=%d (quoted and bare query forms, ordered and unordered provider); the same over {a, byte 0xff} len<=3 with case-sensitive parsing; all ranges over %d ends x 4 bracket forms; all sorted dictionaries of <=%d tokens from the 15 tokens of len<=3 x every split into consecutive blocks x all patterns len<=%d; the same over sub-dictionaries of 11 number tokens x 9 numeric ranges / prefixes whose ends share leading characters, and of 7 tokens of 70-73 bytes with a common prefix x 9 patterns; on a real active and sealed fraction every ordered pair of 2x wildcard patterns (len<=3) and 4 numeric ranges resolved in ONE search (p1 OR p2, p1 AND NOT p2) vs the reference. non-trivial = the case matches some but not all tokens", patLen, tokLen, len(ends), dictMax, layoutPatLen),
 		map[string]any{
 			"states":                        r.DistinctCount("outcomes"),
 			"transitions":                   ev,
